@@ -21,7 +21,7 @@ impl<V: Clone> Slot<V> { fn map(&self) -> HashMap<u8, V> { match self { Slot::Ma
 
 #[derive(Clone, Debug)]
 pub enum Op { Read(u8), Insert(u8, u8), WriterGet(u8), WriterGetMutSet(u8, u8), EntryOrInsert(u8, u8), EntryRemove(u8), DirectInsert(u8, u8), DirectRemove(u8),
-              SetU32(u32), SetStr(u8), GetU32, GetStr, GetMap, GetMutU32Add, DefaultU32, DefaultStrPush, Checker(u8), /** check against a given stamp, without stamping first */ CheckOnly(u8, Option<u8>) }
+              SetU32(u32), SetStr(u8), GetU32, GetStr, GetMap, GetMutU32Add, SetBoxedU32(u32), GetBoxedKind, BoxedMutToStr(u8), DefaultU32, DefaultStrPush, Checker(u8), /** check against a given stamp, without stamping first */ CheckOnly(u8, Option<u8>) }
 
 pub trait ValOf: Sized + Clone + PartialEq + std::fmt::Debug + 'static { fn of(x: u8) -> Self; }
 impl ValOf for u8 { fn of(x: u8) -> u8 { x } }
@@ -74,6 +74,18 @@ fn apply<K, F>(pie: &mut Pie<()>, mk: F, slot: &mut Slot<K::Value>, op: &Op, who
       if got != exp { fail!("C14.bounded.read_yields_the_value_most_recently_stored", "{}: direct remove({}) = {:?}, expected {:?}", who, k, got, exp); } }
     Op::SetU32(x) => { state.set::<u32>(*x); *slot = Slot::U32(*x); }
     Op::SetStr(x) => { state.set::<String>(format!("s{}", x)); *slot = Slot::Str(format!("s{}", x)); }
+    Op::SetBoxedU32(x) => { state.set_boxed(Box::new(*x)); *slot = Slot::U32(*x); }
+    Op::GetBoxedKind => {
+      let kind = |b: &Box<dyn std::any::Any>| if b.as_ref().is::<u32>() { "u32" } else if b.as_ref().is::<String>() { "string" } else if b.as_ref().is::<HashMap<K, K::Value>>() { "map" } else { "something else" };
+      let got = state.get_boxed().map(kind);
+      let exp = match slot { Slot::Empty => None, Slot::Map(_) => Some("map"), Slot::U32(_) => Some("u32"), Slot::Str(_) => Some("string") };
+      if got != exp { fail!("C14.bounded.boxed_access_sees_the_box_of_the_slot", "{}: get_boxed() holds {:?}, slot holds {:?}", who, got, slot); }
+    }
+    Op::BoxedMutToStr(x) => {
+      let got = state.get_boxed_mut().map(|b| { *b = Box::new(format!("s{}", x)); }).is_some();
+      let exp = !matches!(slot, Slot::Empty); if exp { *slot = Slot::Str(format!("s{}", x)); }
+      if got != exp { fail!("C14.bounded.boxed_access_sees_the_box_of_the_slot", "{}: get_boxed_mut() is_some = {}, slot held {:?}", who, got, slot); }
+    }
     Op::GetU32 => { let got = state.get::<u32>().copied(); let exp = if let Slot::U32(x) = slot { Some(*x) } else { None };
       if got != exp { fail!("C14.bounded.typed_get_sees_only_a_state_of_that_type", "{}: get::<u32>() = {:?}, slot holds {:?}", who, got, slot); } }
     Op::GetStr => { let got = state.get::<String>().cloned(); let exp = if let Slot::Str(x) = slot { Some(x.clone()) } else { None };
@@ -118,10 +130,11 @@ impl Rng { fn next(&mut self) -> u64 { self.0 ^= self.0 << 13; self.0 ^= self.0 
 pub fn gen(rng: &mut Rng, len: usize) -> Vec<(bool, Op)> {
   (0..len).map(|_| {
     let k = rng.below(3) as u8; let v = 1 + rng.below(4) as u8;
-    let op = match rng.below(22) {
+    let op = match rng.below(25) {
       0 | 1 => Op::Read(k), 2 | 3 => Op::Insert(k, v), 4 => Op::WriterGet(k), 5 => Op::WriterGetMutSet(k, v), 6 => Op::EntryOrInsert(k, v), 7 => Op::EntryRemove(k),
       8 => Op::DirectInsert(k, v), 9 => Op::DirectRemove(k), 10 => Op::SetU32(v as u32), 11 => Op::SetStr(v), 12 => Op::GetU32, 13 => Op::GetStr, 14 => Op::GetMap,
-      15 => Op::GetMutU32Add, 16 => Op::DefaultU32, 17 => Op::DefaultStrPush, 18 | 19 => Op::CheckOnly(k, if rng.below(3) == 0 { None } else { Some(v) }), _ => Op::Checker(k) };
+      15 => Op::GetMutU32Add, 16 => Op::DefaultU32, 17 => Op::DefaultStrPush, 18 | 19 => Op::CheckOnly(k, if rng.below(3) == 0 { None } else { Some(v) }), 20 | 21 => Op::Checker(k),
+      22 => Op::SetBoxedU32(v as u32), 23 => Op::GetBoxedKind, _ => Op::BoxedMutToStr(v) };
     (rng.below(2) == 0, op)
   }).collect()
 }
